@@ -25,10 +25,17 @@ def templates(ctx):
         T.append({'name': 'tax-' + ''.join(map(str, shape)), 'mode': 'tax', 'is': list(shape)})
     # reflection: fixed taxonomy with a conjunct, record over defined / undefined tags as marker or non-marker
     T.append({'name': 'reflect', 'mode': 'reflect'})
+    # the four kind shortcuts (fits_marker / fits_val / fits_choice / fits_entity) on a fixed taxonomy with chains of length 0..3
+    T.append({'name': 'fits-kind', 'mode': 'fitskind'})
     return T
 
 
 def sym_val(h, bs): return h.sym(list(bs))
+
+
+FITS_KIND_DEFS = [(b'marker', []), (b'val', []), (b'choice', [b'marker']), (b'entity', [b'marker']), (b'color', [b'choice']), (b'red', [b'color']),
+                  (b'crimson', [b'red']), (b'site', [b'entity']), (b'number', [b'val']), (b'temp', [b'number', b'marker']), (b'loose', [])]
+KINDS4 = ['marker', 'val', 'choice', 'entity']
 
 
 def build_defs(ex, h, l, t):
@@ -44,6 +51,12 @@ def build_defs(ex, h, l, t):
             pairs = [(b'def', sym_val(h, [nm]))]
             if k: pairs.append((b'is', h.list_([sym_val(h, [s_]) for s_ in sup])))
             rows.append(pairs); desc.append(([nm], [[s_] for s_ in sup]))
+    elif t['mode'] == 'fitskind':
+        base = FITS_KIND_DEFS
+        for nm, sup in base:
+            pairs = [(b'def', sym_val(h, nm))]
+            if sup: pairs.append((b'is', h.list_([sym_val(h, s_) for s_ in sup])))
+            rows.append(pairs); desc.append((list(nm), [list(s_) for s_ in sup]))
     else:
         # marker <- a, b ; a-b conjunct (is a) ; entity-like root e ; c is e ; d undefined
         base = [(b'm', []), (b'a', [b'm']), (b'b', [b'm']), (b'a-b', [b'a']), (b'e', []), (b'c', [b'e', b'm'])]
@@ -66,6 +79,15 @@ def path(ex, t):
     st['stage'] = 'make'
     ns = ex.call_body(make, [gp])
     nsp = Ptr(Cell(ns))
+    if t['mode'] == 'fitskind':
+        names = [nm for nm, _ in FITS_KIND_DEFS] + [b'zz']
+        q = list(names[ex.pick(len(names))]); st['sym'] = q; st['base'] = list(b'marker')
+        qs = Ptr(Cell(h.sym(q).fields[0]))
+        def M(name): return prog.find_method('haystack::defs::namespace::Namespace', None, name)
+        st['stage'] = 'query'
+        st['out'] = {'fits_' + k: ex.call_body(M('fits_' + k), [nsp, qs]) for k in KINDS4}
+        st['stage'] = 'done'
+        return st
     q = [l.byte([ALPHA])] if t['mode'] == 'tax' else [l.byte([(0x61, 0x65)])]
     b = [l.byte([ALPHA])] if t['mode'] == 'tax' else [l.byte([(0x61, 0x65)])] if ex.pick(2) else list(b'm')
     st['sym'] = q; st['base'] = b
@@ -134,7 +156,7 @@ def post(ex, t, r):
             o = st['out']; res = {}
             for k in ('supertypes', 'all_supertypes', 'subtypes', 'all_subtypes', 'inheritance', 'reflect'):
                 if k in o: res[k] = names_of(ex, cz, o[k])
-            for k in ('has', 'fits', 'reflect_fits', 'filter'):
+            for k in ('has', 'fits', 'reflect_fits', 'filter', 'fits_marker', 'fits_val', 'fits_choice', 'fits_entity'):
                 if k in o: res[k] = bool(cz.c(o[k]))
             s['out'] = res
     except Unsupported as u:
@@ -212,6 +234,8 @@ def run(ctx):
             continue
         validated += 1
         want = reference(s['graph'], s['sym'], s['base'], s['rec'])
+        if s['mode'] == 'fitskind':
+            want = {'fits_' + k: reference(s['graph'], s['sym'], k.encode().hex(), None)['fits'] for k in KINDS4}
         for k, v in want.items():
             got = nat.get(k)
             if isinstance(got, list): got = sorted(set(got))      # answers are sets of defs (an `is` list naming a def twice repeats it)
